@@ -78,16 +78,24 @@ Applicable(doc, j, S, n) ==
        \cup (IF Has(S, "oneOf") THEN UNION {Applicable(doc, j, x, n - 1) : x \in {y \in Elems(Get(S, "oneOf")) : VS(doc, j, y, n - 1)}} ELSE {})
        \cup (IF Has(S, "anyOf") THEN UNION {Applicable(doc, j, x, n - 1) : x \in {y \in Elems(Get(S, "anyOf")) : VS(doc, j, y, n - 1)}} ELSE {})
 
+\* a schema that says "any JSON value" in so many words (google.protobuf.Value; the items of a ListValue):
+\* no keyword that constrains or describes anything - whatever stands there is what the schema describes
+OpenSchema(A) == A.t = "obj" /\ ~IsRef(A)
+                 /\ \A k \in {"type", "properties", "additionalProperties", "items", "allOf", "oneOf", "anyOf", "enum", "const", "not"} : ~Has(A, k)
 RECURSIVE D(_, _, _, _)
 D(doc, j, S, n) ==
   IF n = 0 THEN FALSE ELSE
   LET app == Applicable(doc, j, S, n) IN
+  IF \E A \in app : OpenSchema(A) THEN TRUE ELSE
   CASE j.t = "obj" ->
          \A kv \in j.m :
             \/ \E A \in app : Has(A, "properties") /\ Has(Get(A, "properties"), kv[1])
                               /\ D(doc, kv[2], Get(Get(A, "properties"), kv[1]), n - 1)
             \/ \E A \in app : Has(A, "additionalProperties") /\ Get(A, "additionalProperties").t = "obj"
                               /\ D(doc, kv[2], Get(A, "additionalProperties"), n - 1)
+            \* additionalProperties: true - members of any name and shape are part of the description (Struct)
+            \/ \E A \in app : Has(A, "additionalProperties") /\ Get(A, "additionalProperties").t = "bool"
+                              /\ Get(A, "additionalProperties").v = "true"
     [] j.t = "arr" ->
          \A i \in DOMAIN j.e : \/ \E A \in app : Has(A, "items") /\ D(doc, j.e[i], Get(A, "items"), n - 1)
                                \/ (j.e[i].t \notin {"obj", "arr"})
